@@ -389,7 +389,8 @@ def as_scipy_functional(func, return_gradient=False):
     if return_gradient:
         def func_gradient_call(arr):
             return np.asarray(
-                func.gradient(np.asarray(arr).reshape(func.domain.shape)))
+                func.gradient(np.asarray(arr).reshape(func.domain.shape))
+            ).ravel()
 
         return func_call, func_gradient_call
     else:
